@@ -29,7 +29,8 @@ CONSTANTS MaxN,        \* group sizes 1..MaxN
           MaxAttempt,  \* attempt numbers 1..MaxAttempt
           Kinds,       \* subset of {"signing", "dkg"}
           Slots,       \* evaluation slots (loops whose results are compared)
-          AllOrders,   \* TRUE: every order of the ready list; FALSE: ascending and descending only
+          AllCalls,    \* TRUE: every member index and every order of the ready list;
+                       \* FALSE: representative calls (first member/ascending, last member/descending)
           Variant      \* passed to Retry: "contract" | "hazard"
 
 VARIABLES layout,     \* input: operator of each member (group order), Len = group size
@@ -131,15 +132,17 @@ Canon(n) ==
     ELSE UNION {{Append(s, o) : o \in 1..Min2(MaxOps, MaxOf(s) + 1)} : s \in Canon(n - 1)}
 Layouts == UNION {Canon(n) : n \in 1..MaxN}
 
-Init ==
+InitInputs ==
     /\ layout \in Layouts
     /\ need \in 1..Len(layout)
     /\ kind \in Kinds
     /\ attempt \in 1..MaxAttempt
     /\ readySet \in SUBSET (1..Len(layout))
+InitRest ==
     /\ draws = PossibleDraws
     /\ drawn = NotDrawn
     /\ out = [s \in Slots |-> NoValue]
+Init == InitInputs /\ InitRest
 
 ---------------------------------------------------------------------------
 (* Actions: loop instance of member m (its index does not enter the        *)
@@ -187,13 +190,13 @@ DkgError(s, m, rseq) ==
     /\ UNCHANGED drawn
 
 Reverse(q) == [i \in DOMAIN q |-> q[Len(q) + 1 - i]]
-CallOrders == IF AllOrders THEN Orders(readySet) ELSE {Asc(readySet), Reverse(Asc(readySet))}
-Calls == Slots \X Members \X CallOrders
-DoSigningSelect == \E c \in Calls : SigningSelect(c[1], c[2], c[3])
-DoSigningTooFew == \E c \in Calls : SigningTooFew(c[1], c[2], c[3])
-DoDkgFirst      == \E c \in Calls : DkgFirst(c[1], c[2], c[3])
-DoDkgRetry      == \E c \in Calls : DkgRetry(c[1], c[2], c[3])
-DoDkgError      == \E c \in Calls : DkgError(c[1], c[2], c[3])
+CallSet == IF AllCalls THEN Slots \X Members \X Orders(readySet)
+           ELSE {<<s, mr[1], mr[2]>> : s \in Slots, mr \in {<<1, Asc(readySet)>>, <<N, Reverse(Asc(readySet))>>}}
+DoSigningSelect == \E c \in CallSet : SigningSelect(c[1], c[2], c[3])
+DoSigningTooFew == \E c \in CallSet : SigningTooFew(c[1], c[2], c[3])
+DoDkgFirst      == \E c \in CallSet : DkgFirst(c[1], c[2], c[3])
+DoDkgRetry      == \E c \in CallSet : DkgRetry(c[1], c[2], c[3])
+DoDkgError      == \E c \in CallSet : DkgError(c[1], c[2], c[3])
 
 Next == DoSigningSelect \/ DoSigningTooFew \/ DoDkgFirst \/ DoDkgRetry \/ DoDkgError
 Spec == Init /\ [][Next]_vars
